@@ -62,7 +62,8 @@ def _init():
 
 
 KINDS = ["Onset", "Offset", "Inset"]
-SPELL = {"A": ["A", "a"], "B/3": ["B/3", "b/3"], "B/4": ["B/4"], "Cee": ["Cee", "CEE", "cee"]}
+SPELL = {"A": ["A", "a"], "B/3": ["B/3", "b/3"], "B/4": ["B/4"], "Cee": ["Cee", "CEE", "cee"],
+         "B/go": ["B/go", "b/GO", "B/Go", "B/go"]}
 
 
 def _marker_text(kind, name):
@@ -97,7 +98,7 @@ def generate(run_index, seed, tier):
     hist = _enum_history(run_index, ENUM_LEN[tier]) if run_index < n_enum(tier) else None
     sc = {"enumerated": hist is not None}
     if hist is None:
-        keys = g.subset(["A", "B/3", "B/4", "Cee"], 1, 3)
+        keys = g.subset(["A", "B/3", "B/4", "Cee", "B/go"], 1, 3)
         hist = []
         for _ in range(g.randint(2, 10)):
             tp = []
@@ -116,19 +117,31 @@ def generate(run_index, seed, tier):
     sc["driver"] = g.pick(["api", "file", "file"]) if not sc["enumerated"] else ("api" if run_index % 2 == 0 else "file")
     if sc["driver"] == "file":
         rows = []   # [onset_text, hed_text]
+        # first decide which markers are delivered from an earlier row behind a Delay tag; several delayed groups may
+        # share one carrying row (and one cell)
+        carried = {}     # source time point -> [text]
+        own = []
         for ti, (tp, T) in enumerate(zip(hist, times)):
-            # split markers of this time point over 1..3 rows with equal onset, optionally delay-shift some from earlier rows
-            buckets = [[] for _ in range(g.pick([1, 1, 2, 3]))]
+            mine = []
             for (kind, name) in tp:
-                if ti > 0 and g.chance(0.2):
-                    src = g.randrange(ti)
+                if ti > 0 and g.chance(0.25):
+                    src = g.randrange(ti) if g.chance(0.6) else max(0, ti - 1)
                     delta = T - times[src]
                     unit = g.pick(["s", "s", "ms"])
                     val = ("%g" % delta) if unit == "s" else ("%g" % (delta * 1000))
-                    txt = "(Def/%s, %s, Delay/%s %s)" % (name, kind, val, unit)
-                    rows.append(["%g" % times[src], txt, src])
+                    carried.setdefault(src, []).append("(Def/%s, %s, Delay/%s %s)" % (name, kind, val, unit))
                 else:
-                    g.pick(buckets).append(_marker_text(kind, name))
+                    mine.append(_marker_text(kind, name))
+            own.append(mine)
+        for ti, (tp, T) in enumerate(zip(hist, times)):
+            buckets = [[] for _ in range(g.pick([1, 1, 2, 3]))]
+            for txt in own[ti]:
+                g.pick(buckets).append(txt)
+            extra = carried.get(ti, [])
+            if extra:
+                tgt = g.pick(buckets)
+                for txt in extra:
+                    (tgt if g.chance(0.7) else g.pick(buckets)).append(txt)
             for b in buckets:
                 if b or g.chance(0.3):
                     hed = ", ".join(b + ([g.pick(["Red", "Blue", "Green"])] if g.chance(0.3) or not b else []))
